@@ -18,8 +18,9 @@ TrWrite == Ev.ev = "write" /\ ~Ev.err /\ ~Ev.panic /\ Write(Ev.a) /\ Ev.nbytes =
 TrRead == Ev.ev = "read" /\ Read(Ev.out, Ev.chunk) /\ Obs(Ev.out) /\ Ev.nbytes = Ev.binsize
 TrWireKeys == Ev.ev = "wirekeys" /\ ~Ev.err /\ ~Ev.panic /\ WireKeys(Ev.k) /\ Ev.nbytes = Ev.binsize
 TrSwitch == Ev.ev = "switch" /\ Switch(Ev.a, Ev.out, Ev.order) /\ Obs(Ev.out)
+TrRefresh == Ev.ev = "refresh" /\ Refresh(Ev.a, Ev.out, Ev.order) /\ Obs(Ev.out)
 TraceNext == /\ l <= Len(Trace) /\ l' = l + 1
-             /\ (TrNew \/ TrEnc \/ TrAdd \/ TrMul \/ TrRot \/ TrWrite \/ TrRead \/ TrWireKeys \/ TrSwitch)
+             /\ (TrNew \/ TrEnc \/ TrAdd \/ TrMul \/ TrRot \/ TrWrite \/ TrRead \/ TrWireKeys \/ TrSwitch \/ TrRefresh)
 TraceInit == Init /\ l = 1 /\ TLCSet(1, 1)
 TraceSpec == TraceInit /\ [][TraceNext]_tvars
 Progress == TLCSet(1, IF TLCGet(1) > l THEN TLCGet(1) ELSE l)
